@@ -15,10 +15,12 @@ pub trait Check {
     fn meta(&self, tier: Tier) -> Meta;
 }
 
+pub mod c01;
 pub mod c08;
+pub mod progspace;
 
 pub fn all() -> Vec<Box<dyn Check>> {
-    vec![Box::new(c08::C08)]
+    vec![Box::new(c01::C01), Box::new(c08::C08)]
 }
 
 pub fn get(id: &str) -> Option<Box<dyn Check>> {
